@@ -1,4 +1,5 @@
 import abc
+import math
 
 import torch
 
@@ -65,8 +66,8 @@ class Condition(torch.nn.Module):
         data_functions = dict(data_functions)
         for fun in data_functions:
             data_functions[fun] = UserFunction(data_functions[fun])
-        if isinstance(sampler, StaticSampler):
-            # functions can be evaluated once
+        if isinstance(sampler, StaticSampler) and sampler.resample_interval == math.inf:
+            # functions can be evaluated once (the points are never resampled)
             for fun in data_functions:
                 points = sampler.sample_points()
                 data_fun_points = data_functions[fun](points)
